@@ -31,6 +31,8 @@ _LOGGER = logging.getLogger(__name__)
 
 
 COMMON_KW_NAMES = ("src", "dst", "path", "target", "name", "filename", "file")
+# The keyword names a positional index may be passed by, e.g. copy(src=..., dst=...)
+KW_NAMES_BY_INDEX = {0: ("src", "path", "name", "filename", "file"), 1: ("dst", "target")}
 
 
 @lru_cache(maxsize=8192)
@@ -104,7 +106,7 @@ class FilesystemIsolation(ContextDecorator):
             return None
         if index < len(args):
             return args[index]
-        for name in COMMON_KW_NAMES:
+        for name in KW_NAMES_BY_INDEX.get(index, COMMON_KW_NAMES):
             if name in kwargs:
                 return kwargs[name]
         return None
